@@ -104,12 +104,18 @@ pub fn run_attributed<T>(mut f: impl FnMut() -> Result<T, String>) -> Result<T, 
 
 /// "<file>.rs:<line>" of the first location under /repo mentioned in an error text
 pub fn repo_location(t: &str) -> Option<String> {
-    // prefer a location under /repo, else the first absolute source path mentioned
-    let p = t.find("/repo/").or_else(|| t.find("/root/.cargo/")).or_else(|| t.find("/rustc/"))?;
-    let rest = &t[p..];
-    let end = rest.find(|c: char| c.is_whitespace() || c == ',' || c == ';').unwrap_or(rest.len());
-    let mut it = rest[..end].rsplit('/').next()?.split(':');
-    Some(format!("{}:{}", it.next()?, it.next()?))
+    // "<file>.rs:<line>" from the last path component of a source location mentioned in the text; independent of
+    // where the lance tree is checked out (/repo, /tmp/…): locations inside a lance source tree
+    // (…/rust/lance*/…, …/rust/compression/…) are preferred over registry / std paths
+    let locs: Vec<&str> = t
+        .split(|c: char| c.is_whitespace() || c == ',' || c == ';' || c == '"' || c == '(' || c == ')')
+        .filter(|w| w.contains(".rs:") && w.contains('/'))
+        .collect();
+    let pick = locs.iter().find(|w| w.contains("/rust/lance") || w.contains("/rust/compression/")).or(locs.first())?;
+    let mut it = pick.rsplit('/').next()?.split(':');
+    let file = it.next()?;
+    let line = it.next().unwrap_or("");
+    Some(format!("{file}:{}", line.trim_matches(|c: char| !c.is_ascii_digit())))
 }
 
 /// narrow class of an IO failure text, stable across line-number shifts:
